@@ -8,6 +8,7 @@ import (
 	"strings"
 	"time"
 
+	"go.flow.arcalot.io/pluginsdk/mcrt"
 	"go.flow.arcalot.io/pluginsdk/schema"
 	"verif/engine/lib"
 	"verif/engine/ux"
@@ -93,6 +94,22 @@ func same(a, b []string) bool {
 	return true
 }
 
+// underOrders runs body under the sorted iteration order and under every single deviating order of every map the
+// code ranges over (map-order seam of engine/mcrt; schema/ is built with the maporder rewrite for this check), and
+// calls after for each execution.
+func underOrders(body func(), after func(panicSig, panicVal string)) {
+	e := &mcrt.Explorer{MaxPreempt: 0, MaxDelay: -1, MaxDeviate: 1, MaxSteps: 1 << 20, Body: body, Check: func(r *mcrt.Result) bool {
+		if r.Status == mcrt.StPanic {
+			after(fmt.Sprintf("panic in %s: %s", lib.PanicSite(r.PanicStack), lib.PanicClass(r.PanicValue)), r.PanicValue)
+		} else {
+			after("", "")
+		}
+		return true
+	}}
+	e.Deadline = ux.BatchDeadline()
+	e.All()
+}
+
 func check(spec *ukit.Spec, tier string, res *ux.Result, only *replay) {
 	var sch schema.Type
 	if pan, _, _ := ukit.Call(func() { sch = ukit.Build(spec) }); pan {
@@ -146,19 +163,21 @@ func check(spec *ukit.Spec, tier string, res *ux.Result, only *replay) {
 				break
 			}
 			ux.Progress(idx)
-			pan, val, stack := ukit.Call(func() {
-				_, err := sch.Unserialize(ukit.DeepCopy(c.Value))
+			// every iteration order of every map the operation ranges over (one deviating iteration at a time, all
+			// permutations): which element a rejection names must not depend on it
+			var err error
+			underOrders(func() { _, err = sch.Unserialize(ukit.DeepCopy(c.Value)) }, func(panicSig, panicVal string) {
 				res.Evaluations++
-				if err == nil {
+				switch {
+				case panicSig != "":
+					res.Add(panicSig, fmt.Sprintf("Unserialize(%s) on %s: %s", ukit.Show(c.Value), spec, panicVal), replay{spec, "Unserialize", idx, c.Kind, ukit.Show(c.Value)})
+				case err == nil:
 					res.Count("corruption_accepted", 1)
-					return
+				default:
+					res.Nontrivial++
+					judge("Unserialize", idx, c, err)
 				}
-				res.Nontrivial++
-				judge("Unserialize", idx, c, err)
 			})
-			if pan {
-				res.Add(fmt.Sprintf("panic in %s: %s", lib.PanicSite(stack), lib.PanicClass(fmt.Sprint(val))), fmt.Sprintf("Unserialize(%s) on %s", ukit.Show(c.Value), spec), replay{spec, "Unserialize", idx, c.Kind, ukit.Show(c.Value)})
-			}
 		}
 		var native any
 		var nerr error
@@ -170,19 +189,19 @@ func check(spec *ukit.Spec, tier string, res *ux.Result, only *replay) {
 			if only != nil && (only.Op != "Validate" || only.Idx != idx) {
 				continue
 			}
-			pan, val, stack := ukit.Call(func() {
-				err := sch.Validate(c.Value)
+			var err error
+			underOrders(func() { err = sch.Validate(c.Value) }, func(panicSig, panicVal string) {
 				res.Evaluations++
-				if err == nil {
+				switch {
+				case panicSig != "":
+					res.Add(panicSig, fmt.Sprintf("Validate(%s) on %s: %s", ukit.Show(c.Value), spec, panicVal), replay{spec, "Validate", idx, c.Kind, ukit.Show(c.Value)})
+				case err == nil:
 					res.Count("corruption_accepted", 1)
-					return
+				default:
+					res.Nontrivial++
+					judge("Validate", idx, c, err)
 				}
-				res.Nontrivial++
-				judge("Validate", idx, c, err)
 			})
-			if pan {
-				res.Add(fmt.Sprintf("panic in %s: %s", lib.PanicSite(stack), lib.PanicClass(fmt.Sprint(val))), fmt.Sprintf("Validate(%s) on %s", ukit.Show(c.Value), spec), replay{spec, "Validate", idx, c.Kind, ukit.Show(c.Value)})
-			}
 		}
 	}
 }
@@ -219,7 +238,7 @@ func main() {
 			check(r.Spec, "quick", &res, &r)
 			return res.Findings
 		},
-		Rule: "21 nested skeletons plus every list / map / object / scope of U_2: top-level leaves, lists of lists, maps of lists and objects, objects with nested lists of objects with maps, enum-keyed maps, one-ofs with inlined and non-inlined discriminators, scopes with references (incl. recursive), struct-mapped objects; x 2 valid inputs x every leaf, key, list, map, object of the input corrupted one at a time with each applicable corruption (wrong type (3 variants), below min, above max, pattern miss, not in enum, bad key, size bounds, undeclared key, missing required, unknown discriminator), for Unserialize on raw trees and for Validate on native values; non-trivial = corruptions that the operation rejected (each must carry a constraint error whose normalised path equals the element's path)",
+		Rule: "every operation runs under the sorted and under every single deviating iteration order of every map it ranges over (map-order seam, all permutations for <= 4 keys); 21 nested skeletons plus every list / map / object / scope of U_2: top-level leaves, lists of lists, maps of lists and objects, objects with nested lists of objects with maps, enum-keyed maps, one-ofs with inlined and non-inlined discriminators, scopes with references (incl. recursive), struct-mapped objects; x 2 valid inputs x every leaf, key, list, map, object of the input corrupted one at a time with each applicable corruption (wrong type (3 variants), below min, above max, pattern miss, not in enum, bad key, size bounds, undeclared key, missing required, unknown discriminator), for Unserialize on raw trees and for Validate on native values; non-trivial = corruptions that the operation rejected (each must carry a constraint error whose normalised path equals the element's path)",
 		Assumptions: []string{
 			"path segments are compared after stripping the decoration the implementation adds: [i], {key}, [key]; {oneof[..]} segments are ignored",
 			"for an undeclared key and an unknown discriminator the path may end at the enclosing object or at the key",
